@@ -87,6 +87,16 @@ void harness(void) {
 #if GROUP == 2
 	c04_build_pubfile(ctx);
 #endif
+#ifdef AGGR_TIME
+	/* concrete aggregation time and anchor time (instances enumerate the order): whether a request can be formed at all (start <= end) then
+	 * is decided while the program is unfolded, and the request object handed to the clean-up code is a concrete object */
+	sb_chain[0]->aggregationTime->value = AGGR_TIME; SB.ch[0].aggrTime = AGGR_TIME;
+#if GROUP == 1
+	c04_userpub->time->value = ANCHOR_TIME; C4.up.time = ANCHOR_TIME;
+#elif GROUP == 2
+	c04_pf_rec[0]->publishedData->time->value = ANCHOR_TIME; C4.pf[0].time = ANCHOR_TIME;
+#endif
+#endif
 	/* premise of every anchor table: internal verification succeeded, in particular the aggregation chain aggregates (C01 / C03: start level
 	 * and level correction in range) */
 	sb_vc.docAggrLevel = 0;
